@@ -4,6 +4,7 @@ import (
 	"context"
 	"encoding/json"
 	"fmt"
+	"path"
 	"sort"
 	"strings"
 	"sync"
@@ -14,6 +15,7 @@ import (
 	"berty.tech/go-ipfs-log/entry"
 	orbitdb "berty.tech/go-orbit-db"
 	"berty.tech/go-orbit-db/accesscontroller"
+	"berty.tech/go-orbit-db/address"
 	"berty.tech/go-orbit-db/iface"
 	"berty.tech/go-orbit-db/stores"
 	datastore "github.com/ipfs/go-datastore"
@@ -361,9 +363,26 @@ func c09Scenario(r *Run, si int, hookCount *int64) error {
 			r.Count("same-name-pair")
 		}
 		ac := &accesscontroller.CreateAccessControllerOptions{Access: map[string][]string{"write": writers}}
-		st, err := X.Orbit.Create(ctx, fmt.Sprintf("db-%s-%d", s.Label, nameIdx), typ, &orbitdb.CreateDBOptions{AccessController: ac})
-		if err != nil {
-			return fmt.Errorf("create %d: %w", j, err)
+		var st iface.Store
+		if j >= 1 && (r.Rng.Intn(3) == 0 || (j == k-1 && si%2 == 1)) {
+			// a SIBLING of database j-1: same manifest root (hence type and write list), same last
+			// path segment, another path -- another address, log id, topic and cache directory
+			prev, perr := address.Parse(w.addrs[j-1])
+			if perr != nil {
+				return perr
+			}
+			sib := fmt.Sprintf("/orbitdb/%s/archive-%d/%s", prev.GetRoot().String(), j, path.Base(prev.GetPath()))
+			st, err = X.Orbit.Open(ctx, sib, &orbitdb.CreateDBOptions{})
+			if err != nil {
+				return fmt.Errorf("open sibling %d: %w", j, err)
+			}
+			typ, mode = w.types[j-1], w.wmodes[j-1]
+			r.Count("sibling-same-root")
+		} else {
+			st, err = X.Orbit.Create(ctx, fmt.Sprintf("db-%s-%d", s.Label, nameIdx), typ, &orbitdb.CreateDBOptions{AccessController: ac})
+			if err != nil {
+				return fmt.Errorf("create %d: %w", j, err)
+			}
 		}
 		w.x = append(w.x, st)
 		w.addrs = append(w.addrs, st.Address().String())
